@@ -93,4 +93,6 @@ def run(ctx, rep):
     from rules import c17
     from rules import progress_rules as PG
     c17.counters(rep, lib)
+    from rules import pipeline_rules as _P
+    _P.sink_immediate(rep, lib)
     PG.recover_consumes(rep, ctx)
